@@ -474,7 +474,7 @@ fn run(ctx: &Ctx) {
 	ctx.report.borrow_mut().exhaustive = true;
 	ctx.rule("meta-enum sub-run: exhaustive over all 384 single-column option values");
 	let n = scaled(ctx, 3_000, 60_000);
-	if !ctx.run_prop("meta", n, (proptest::collection::vec(0u16..384, 2..=4), any::<u64>()).prop_map(|(cols, salt_seed)| MetaCase { cols, salt_seed }), run_meta) {
+	if !ctx.run_prop("meta", n, (prop_oneof![3 => proptest::collection::vec(0u16..384, 2..=4), 1 => proptest::collection::vec(0u16..384, 10..=20)], any::<u64>()).prop_map(|(cols, salt_seed)| MetaCase { cols, salt_seed }), run_meta) {
 		return
 	}
 	let n = scaled(ctx, 1_500, 30_000);
